@@ -16,7 +16,7 @@ git apply "$SRC/change$N.diff"
 env -u TORNADO_VERIF timeout 300 /venv/bin/python _demo.py > "$W/_demo1.out" 2>&1; D1=$?
 env -u TORNADO_VERIF timeout 1500 /venv/bin/python -m pytest -q -p no:cacheprovider --timeout=900 --continue-on-collection-errors tornado/test > "$W/_suite.out" 2>&1
 SUM=$(tail -1 "$W/_suite.out")
-FAILED=$(grep -E '^(FAILED|ERROR) ' "$W/_suite.out" | sed 's/^[A-Z]* //; s/ - .*//' | sort -u)
+FAILED=$(grep -E '^(FAILED|ERROR) tornado/test/' "$W/_suite.out" | sed 's/^[A-Z]* //; s/ - .*//' | sort -u)
 STILL=""
 for t in $FAILED; do
   ok=0
